@@ -13,6 +13,7 @@ import (
 func init() { register("C05", checkC05) }
 
 func checkC05(p *load.Program, r *kit.Report) {
+	importRules(p, r, "C16", "a request that is abandoned while a node is delivering the block, a download counted complete without having processed the requested block, or a registry that loses running downloads, leaves best-chain blocks unprocessed", 3, nil, "GIVE-UP")
 	importRules(p, r, "C04", "the processed marker (AppendBlockTxIDs) is what the walk back stops at: it must be written last, only for a fully processed block", 2, nil, "ORDER")
 	r.NotDecided = "everything about which blocks are requested for a given chain/processed set, reorg timing and failure recovery over histories; strictly-ascending contiguous processing as an observed sequence. Decided are the guards, pairing and signalling facts necessary for it."
 	r.Rule("GUARD-DOM", "synchronizeBlocks returns before any request when the tip is below StartBlockHeight; a block is prepended to the request list only behind height > StartBlockHeight and a not-yet-processed answer of FetchBlockTxIDs; close(abort) only for a non-nil channel of the current request", 4)
@@ -199,10 +200,10 @@ func checkC05(p *load.Program, r *kit.Report) {
 			// the list ranged over by the request loop
 			var listV ssa.Value
 			if s, _, ok := elemIndex(kit.Strip(add.Call.Args[2])); ok {
-				listV = kit.Strip(s)
+				listV = kit.Provenance(s)
 			}
 			for _, e := range ph.Edges {
-				e = kit.Strip(e)
+				e = kit.Provenance(e)
 				if b, ok := e.(*ssa.BinOp); ok && b.Op == token.ADD && b.X == ssa.Value(ph) {
 					if k, ok := kit.ConstInt(b.Y); ok && k == 1 {
 						okStep = true
